@@ -387,8 +387,16 @@ func opFlip(t []string) (string, string) {
 		return out, "ok"
 	}
 	if written[j].kind == 'm' {
+		lineStart := 0
+		if j > 0 {
+			lineStart = ends[j-1]
+		}
 		if j >= len(evs) {
-			return out, fmt.Sprintf("VIOL:msgline-not-corruption corrupted message line %d reported as %s", j, end)
+			cls := "msgline-not-corruption"
+			if pos == lineStart && val == '#' && end == "metaerr" {
+				cls = "msgline-hash-not-corruption" // first byte → '#': parsed as a marker line, plain error
+			}
+			return out, fmt.Sprintf("VIOL:%s corrupted message line %d reported as %s", cls, j, end)
 		}
 		e := evs[j]
 		switch {
